@@ -365,6 +365,7 @@ def run(ctx):
             ctx.ob("R7.4", "%s:felt-input-recentred" % fn.name, False, "%s: felt252_for_downcast is no longer applied" % label, fn.where())
     for k in sorted(set(exc) - used):
         ctx.ob("R7.x", "stale:" + k, False, "exception row no longer matches", TABLE)
+    _eq_ne_agree(ctx, F, efc)
     _controls(ctx, F, efc)
 
 
@@ -385,6 +386,54 @@ def _origins(fn, l, depth=6):
                 for p in rvalue_places(df[3]):
                     stack.append((place_local(p), d + 1))
     return out
+
+
+def _eq_ne_agree(ctx, F, efc):
+    """R7.10: `a != b` in a constant is the negation of `a == b`.  The evaluator recognises the two trait functions by comparing
+    the called function with its `eq_fn` / `ne_fn` fields; the `==` arm decides by a value comparison of the two constant
+    arguments (a felt252 constant keeps the spelling of its literal, so equal values can have different interned ids).  Sibling
+    agreement: the workspace routines the `!=` arm calls are exactly those the `==` arm calls - the arms differ by a negation
+    only.  An arm that compares something else (the interned ids, seed C07-5) disagrees with `==` and with run time."""
+    arms = {}
+    for bb, t in efc.switches():
+        info, flip = bool_condition(efc, bb)
+        if not info or info[0] != "call" or info[1].name() not in ("eq", "ne") or len(info[1].args) != 2:
+            continue
+        toks = set()
+        for a in info[1].args:
+            toks |= set(op_prov(efc, a, 10))
+        which = [w for w in ("eq_fn", "ne_fn") if ("f:" + w) in toks]
+        if len(which) != 1:
+            continue
+        want = (info[1].name() == "eq") ^ flip
+        t_succ = [s for s in efc.succ(bb) if bool_edge_value(efc, bb, s) is want]
+        f_succ = [s for s in efc.succ(bb) if bool_edge_value(efc, bb, s) is (not want)]
+        if len(t_succ) != 1 or len(f_succ) != 1:
+            continue
+        region = efc.reachable_blocks(t_succ[0], avoid=f_succ)
+        calls = set()
+        for c in efc.calls():
+            if c.bb in region and c.path.startswith("cairo_lang_"):
+                calls.add(strip_generics_local(c.path))
+        arms[which[0]] = (calls, bb)
+    found = set(arms) == {"eq_fn", "ne_fn"}
+    ctx.ob("R7.10", "evaluate_function_call:eq/ne-arms", found,
+           "the `==` and `!=` arms are selected by comparisons with the fields eq_fn / ne_fn" if found else
+           "arms selected by eq_fn / ne_fn not found: %s" % sorted(arms), efc.where())
+    if not found:
+        return
+    ce, cn = arms["eq_fn"][0], arms["ne_fn"][0]
+    ok = ce == cn and bool(ce)
+    ctx.ob("R7.10", "evaluate_function_call:ne==not-eq", ok,
+           "both arms decide through %s" % sorted(last_seg(x) for x in ce) if ok else
+           "the `!=` arm calls %s, the `==` arm %s: `!=` is not the negation of `==` (a value comparison on one side, something "
+           "else - e.g. the interned ids - on the other)" % (sorted(last_seg(x) for x in cn), sorted(last_seg(x) for x in ce)),
+           efc.where())
+
+
+def strip_generics_local(p):
+    from .lib import strip_generics
+    return strip_generics(p)
 
 
 def _controls(ctx, F, efc):
